@@ -43,7 +43,7 @@ def strategy(tier, phase):
         st.tuples(st.just("s"), st.integers(0, N_SET - 1), st.integers(0, 60), st.integers(0, 60)).map(list),
         st.tuples(st.just("e"), st.integers(0, 13), st.integers(0, 60), st.integers(0, 60), st.integers(0, 60)).map(list),
     )
-    return st.fixed_dictionaries({"gen": st.sampled_from([2, 3, 3]), "tape": protogen.tape_strategy(300), "irv": st.sampled_from([0, 10, 11, 13]), "kind": st.integers(0, len(KINDS) - 1),
+    return st.fixed_dictionaries({"gen": st.sampled_from([2, 3, 4, 4]), "tape": protogen.tape_strategy(300), "irv": st.sampled_from([0, 10, 11, 13]), "kind": st.integers(0, len(KINDS) - 1),
                                   "which": st.integers(0, 1), "deep": st.booleans(), "ops": st.lists(op, min_size=1, max_size=8),
                                   # edits made to the model BEFORE it is cloned (what a pass pipeline has done to it by then), e.g. a node
                                   # output that carries as const_value the very tensor object of a node attribute (constant propagation)
